@@ -29,6 +29,7 @@ EVIDENCE = {
 }
 
 TEST_CID = 0x0055
+RPA_TIMEOUT = 60
 ADV_PAYLOADS = [b'\x02\x01\x06', b'\x02\x01\x06\x05\x09Bsim', b'\x02\x01\x04\x03\x03\x0f\x18\x09\x09LongName', b'', b'\x1e\xff' + bytes(range(29))]
 RSP_PAYLOADS = [b'\x04\x09Rsp', b'\x03\x19\x40\x00', b'', b'\x1e\xff' + bytes(range(100, 129)), b'\x02\x0a\x00']
 
@@ -36,6 +37,7 @@ RSP_PAYLOADS = [b'\x04\x09Rsp', b'\x03\x19\x40\x00', b'', b'\x1e\xff' + bytes(ra
 def gen_le(rng, tier, seed):
     n = rng.choice([2, 2, 3, 3, 4, 5])
     ext = [rng.random() < 0.35 for _ in range(n)]
+    privacy = [rng.random() < 0.25 for _ in range(n)]  # resolvable private own address, rotated every le_rpa_timeout
     ops = []
     adv = {}  # node -> own type
     links = []  # (central, peripheral)
@@ -99,9 +101,30 @@ def gen_le(rng, tier, seed):
         elif r < 0.93:
             a = rng.randrange(n)
             ops.append(['connect_absent', a])
+        elif r < 0.95 and n >= 3 and any(ext):
+            # one peripheral, several advertising sets (sharing the device address or with an address of their own),
+            # centrals connect to them one after the other
+            d = rng.choice([i for i in range(n) if ext[i]])
+            cents = [c for c in range(n) if c != d and not linked(c, d)]
+            if d in adv or len(cents) < 2:
+                continue
+            rng.shuffle(cents)
+            cents = cents[:rng.choice([2, 2, 3])]
+            kinds = [rng.choice(['random', 'random', 'public', 'own']) for _ in cents]
+            if rng.random() < 0.5:
+                kinds[1] = kinds[0] if kinds[0] != 'own' else 'random'
+                kinds[0] = kinds[1]
+            ops.append(['advsets', d, kinds, cents, [rng.choice(['public', 'random']) for _ in cents]])
+            links.extend((c, d) for c in cents)
+        elif r < 0.975:
+            # a node's random address changes (RPA rotation by timer when privacy is on, else a new static address)
+            d = rng.randrange(n)
+            if d in adv or d in scanning:
+                continue
+            ops.append(['readdr', d])
         else:
             ops.append(['wait', round(rng.random() * 0.2, 3)])
-    return {'n': n, 'ext': ext, 'profile': rng.choice(PROFILE_NAMES), 'slow': rng.randrange(n), 'ops': ops}
+    return {'n': n, 'ext': ext, 'privacy': privacy, 'profile': rng.choice(PROFILE_NAMES), 'slow': rng.randrange(n), 'ops': ops}
 
 
 class Ctx:
@@ -126,6 +149,8 @@ class Ctx:
 
     def addr(self, node, own):
         d = self.world[node].device
+        if own.startswith('set:'):  # an advertising set's own random address
+            return self.hci.Address(own[4:], self.hci.Address.RANDOM_DEVICE_ADDRESS)
         return d.public_address if own == 'public' else d.random_address
 
     def own_type(self, own):
@@ -140,7 +165,9 @@ def run_le(case):
     sim = Sim(case['seed'], case.get('profile', 'zero'), slow_node=f'N{case.get("slow", 0)}')
     try:
         n = case['n']
-        world = World(sim, n)
+        privacy = case.get('privacy') or [False] * n
+        from bumble.device import DeviceConfiguration
+        world = World(sim, n, device_configs=[DeviceConfiguration(le_privacy_enabled=True, le_rpa_timeout=RPA_TIMEOUT) if privacy[i] else None for i in range(n)])
         for i in range(n):
             if case['ext'][i]:
                 enable_extended_advertising(world[i].controller)
@@ -246,6 +273,14 @@ def run_le(case):
                 break
             elif kind == 'connect_absent':
                 if not _connect_absent(cx, op[1]):
+                    break
+            elif kind == 'advsets':
+                k = _advsets(cx, op)
+                if k is None:
+                    break
+                established += k
+            elif kind == 'readdr':
+                if not _readdr(cx, op[1], privacy[op[1]]):
                     break
             sim.trace.shape(kind, tuple(str(x) for x in op[1:5] if not isinstance(x, (list, float))))
         _final_tables(cx)
@@ -517,6 +552,73 @@ def _race(cx, op, mode):
     p_events = [x for x in cx.conn_events[b] if x.role == 1]
     if len(winners) > len(p_events):
         sim.violation_once('phantom', f'race:central-connected-but-peripheral-not:{mode(b)}', f'{len(winners)} centrals were handed a connection, the advertiser reported {len(p_events)}')
+
+
+def _advsets(cx, op):
+    """Several advertising sets on one peripheral; one central per set, one after the other."""
+    from bumble.device import AdvertisingParameters
+    sim, world = cx.sim, cx.world
+    _, d, kinds, cents, cowns = op
+    dev = world[d].device
+    targets = []
+    for k, kind in enumerate(kinds):
+        own_addr = None
+        if kind == 'own':
+            own_addr = cx.hci.Address(f'C{d}:00:00:00:0{k}:5E', cx.hci.Address.RANDOM_DEVICE_ADDRESS)
+        params = AdvertisingParameters(own_address_type=cx.own_type('public' if kind == 'public' else 'random'),
+                                       primary_advertising_interval_min=30.0, primary_advertising_interval_max=30.0)
+        st, t = sim.run(dev.create_advertising_set(advertising_parameters=params, random_address=own_addr, advertising_data=ADV_PAYLOADS[1]), 10.0)
+        if st != 'done' or t.exception() is not None:
+            sim.violation_once('adv', f'advertise-failed:ext-set:{kind}', f'create_advertising_set: {st} {t.exception() if st == "done" else describe_task(t)}')
+            return None
+        targets.append(kind if kind != 'own' else 'set:' + str(own_addr).split('/')[0])
+    sim.probe('several_advertising_sets_on_one_peripheral')
+    if len(set(targets)) < len(targets):
+        sim.probe('advertising_sets_sharing_one_address')
+    if any(x.startswith('set:') for x in targets):
+        sim.probe('advertising_set_with_its_own_address')
+    sim.loop.advance(0.065)
+    done = 0
+    for c, cown, bown in zip(cents, cowns, targets):
+        if not _connect(cx, c, d, cown, bown, f'ext-sets:central={cown}:peripheral={bown.split(":")[0]}'):
+            return None
+        done += 1
+        # data right away in both directions: the connection must be usable whatever set served it
+        for side in (0, 1):
+            if not _send(cx, c, d, side, 1, 5):
+                return None
+    return done
+
+
+def _readdr(cx, d, private):
+    """Node d's random address changes while its connections stay up."""
+    sim, world = cx.sim, cx.world
+    dev = world[d].device
+    before = dev.random_address
+    if private:
+        sim.loop.advance(RPA_TIMEOUT + 1.0)
+        sim.loop.settle(vt_budget=1.0)
+        sim.probe('private_address_rotated_by_timer')
+    else:
+        cx.counter += 1
+        new = cx.hci.Address(f'D{d}:00:00:00:{cx.counter & 0xFF:02X}:01', cx.hci.Address.RANDOM_DEVICE_ADDRESS)
+        st, t = sim.run(dev.send_sync_command(cx.hci.HCI_LE_Set_Random_Address_Command(random_address=new)), 10.0)
+        if st != 'done' or t.exception() is not None:
+            sim.violation_once('readdr', 'set-random-address-failed', f'{st}')
+            return False
+        dev.random_address = new
+        sim.probe('random_address_changed_while_connected' if any(d in k for k in cx.links) else 'random_address_changed')
+    # the device and its controller name the same address: it is the one a peer would be told to connect to
+    if bytes(world[d].controller.random_address) != bytes(dev.random_address):
+        sim.violation_once('addrsplit', f'device-and-controller-disagree-on-random-address:{"rpa" if private else "static"}',
+                           f'N{d}: device says {dev.random_address}, controller uses {world[d].controller.random_address} (was {before})')
+        return False
+    # connections made under the old address still carry data both ways
+    for key in [k for k in cx.links if d in k]:
+        for side in (0, 1):
+            if not _send(cx, key[0], key[1], side, 1, 3):
+                return False
+    return True
 
 
 def _connect_absent(cx, a):
